@@ -159,12 +159,16 @@ def run(tape: Tape) -> Outcome:
     datas = [make_data_seed(s) for s in dseeds]
     refs: dict = {}
 
-    def reference(cfg: dict, src: str, di: int):
-        key = (_key(cfg), src, di)
+    def reference(cfg: dict, src: str, di: int, name=None):
+        key = (_key(cfg), src, di, name)
         if key not in refs:
             clear_process_caches()
-            env = jinja2.Environment(**cfg)
-            refs[key] = _render(lambda: env.from_string(src).render(datas[di]))
+            if name is None:
+                env = jinja2.Environment(**cfg)
+                refs[key] = _render(lambda: env.from_string(src).render(datas[di]))
+            else:
+                env = jinja2.Environment(loader=jinja2.DictLoader({name: src}), **cfg)
+                refs[key] = _render(lambda: env.get_template(name).render(datas[di]))
         return refs[key]
 
     def execute(sched_tape, plan, serial, record_regions=False):
@@ -212,7 +216,7 @@ def run(tape: Tape) -> Outcome:
                     get_env(0)
                 e, cfg, sci = envs[op[1] % len(envs)]
                 src = sources[sci]
-                expect[i] = (cfg, src, op[2])
+                expect[i] = (cfg, src, op[2]) if op[0] == "from_string" else (cfg, src, op[2], f"t{sci}")
                 if op[0] == "from_string":
                     results[i] = _render(lambda: e.from_string(src).render(datas[op[2]]))
                 else:
@@ -281,12 +285,12 @@ def run(tape: Tape) -> Outcome:
         for i, op in enumerate(ops):
             if expect[i] is None:
                 continue
-            cfg, src, di = expect[i]
+            cfg, src, di, *nm = expect[i]
             ck = _key(cfg)
             if ck in used and used[-1] != ck:
                 reuse = True
             used.append(ck)
-            want = reference(cfg, src, di)
+            want = reference(cfg, src, di, nm[0] if nm else None)
             if results[i] != want:
                 out.violate(("render-differs", op[0], results[i][0], want[0], "threads%d" % nt), op=i, got=results[i], expected=want)
                 return out
